@@ -210,9 +210,10 @@ type TxnCfg struct {
 	KeyOps         bool // on keyed schemas: key operations (otherwise only InsertKey for new rows)
 	Direct         bool // single-step transactions may use the collection-level methods
 	OnlyCols       []int
-	NoStoreOnDel   bool     // never store to a row that the same transaction deletes (known finding F11)
-	NoDoubleDelete bool     // never delete one row twice in one transaction
-	StringAlphabet []string // if set, string values are drawn from this alphabet
+	NoStoreOnDel   bool                                             // never store to a row that the same transaction deletes (known finding F11)
+	NoDoubleDelete bool                                             // never delete one row twice in one transaction
+	StringAlphabet []string                                         // if set, string values are drawn from this alphabet
+	SafeValue      func(t *rapid.T, cs ColSpec, label string) Value // if set, replaces the edge-biased value generator
 }
 
 func storableCols(m *Model, cfg TxnCfg) []int {
@@ -248,7 +249,9 @@ func genStores(t *rapid.T, m *Model, cfg TxnCfg, min, max int, label string) []S
 		if canMerge && rapid.IntRange(0, 2).Draw(t, label+"-merge") == 0 {
 			st.Merge = true
 		}
-		if cs.Kind == KString && cfg.StringAlphabet != nil {
+		if cfg.SafeValue != nil {
+			st.Val = cfg.SafeValue(t, cs, label+"-safe")
+		} else if cs.Kind == KString && cfg.StringAlphabet != nil {
 			st.Val = Value{S: rapid.SampledFrom(cfg.StringAlphabet).Draw(t, label+"-sval")}
 		} else {
 			st.Val = genValue(t, cs, label+"-val")
